@@ -41,11 +41,17 @@ inductive MetaDefect where
   | protocolVersion       -- `vgi_rpc.protocol_version` absent / incompatible with a service that declares one
 deriving Repr, DecidableEq
 
+/-- why the columns of a well-formed request do not fit -/
+inductive ParamDefect where
+  | mismatch     -- wrong / missing / extra columns, wrong row count, wrong types (`TypeError`, `RpcError`)
+  | badNames     -- a field name that is not UTF-8: Arrow raises `UnicodeDecodeError` when the names are materialised
+deriving Repr, DecidableEq
+
 inductive Body where
   | valid                      -- well-formed IPC, well-formed metadata, conforming parameters / input batch
   | parseFail (e : ParseExc)   -- corrupted / truncated / empty / zero-batch: reading the bytes raises `e`
   | badMeta (m : MetaDefect)   -- well-formed IPC, wrong request metadata
-  | badParams                  -- well-formed IPC and metadata; columns do not fit the parameters / the input schema
+  | badParams (d : ParamDefect) -- well-formed IPC and metadata; columns do not fit the parameters / the input schema
   | cancel                     -- valid body carrying `vgi_rpc.cancel` (meaningful on /exchange only)
 deriving Repr, DecidableEq
 
@@ -157,7 +163,8 @@ structure Tables where
   /-- /exchange -/
   missingTokenStatus : Nat
   tokenStatuses : List Nat
-  coerceStatus : Option Nat
+  /-- handler guarding `_coerce_input_batch`: status per exception class (`none` = not caught) -/
+  coerce : ParamDefect → Option Nat
   /-- in-band failure statuses (before `_set_http_status`) -/
   unaryFail : Nat
   initFail : Nat
